@@ -6,9 +6,9 @@ from .util import md5hex, write_file
 NAME_POOL = [
     "a", "b", "c", "data", "x.txt", "file", "z",
     "sp ace", "qu\"ote", "back\\slash", "new\nline", "tab\there", ".hidden", "x.dir", "é", "日本", "😀",
-    "a.b.c", "-dash", "~tilde", "per%cent", "#hash", "UPPER", "0", "00", "same", "Same", "x" * 40,
+    "a.b.c", "notes..txt", "..hidden", "trail..", "-dash", "~tilde", "per%cent", "#hash", "UPPER", "0", "00", "same", "Same", "x" * 40,
 ]
-DIR_POOL = ["d", "sub", "dir", "d.dir", "é dir", "deep", "a", "b", "x y", "q\\r"]
+DIR_POOL = ["d", "sub", "dir", "d.dir", "é dir", "deep", "a", "b", "x y", "q\\r", "v1..v2"]
 
 
 def rand_name(rng, pool=NAME_POOL):
